@@ -110,6 +110,11 @@ inductive Slot where
   | cargs                -- `(T V, T V, …)` (the arguments of a call; argument: `.tyvals`); only as the last slot of a row
   | kw (ks : List Bytes)     -- exactly one of the keywords `ks`, printed as it stands (an atomic ordering ` seq_cst`, an atomicrmw operation `add `)
   | okw (ks : List Bytes)    -- nothing or one of the keywords `ks` (the ordering of an atomic load / store); only in front of the final `align` slot
+  | loc                  -- `%x`: a local VALUE named without a type (the pad of a catchret / cleanupret, the catchswitch of a catchpad); not a label
+  | pad                  -- `none` or `%x` (the parent pad of a catchswitch / cleanuppad)
+  | labs                 -- `label %a, label %b` zero or more times (the targets of indirectbr, the handlers of catchswitch); in front of a literal that starts with `]`
+  | unwind               -- `to caller` or `label %b` (the unwind target of catchswitch / cleanupret); only as the last slot of a row
+  | eargs                -- `[T V, T V, …]` (the arguments of a catchpad / cleanuppad; argument: `.tyvals`); only as the last slot of a row
   | flags (ks : List Bytes)  -- any sequence of the keywords `ks`, each followed by a space (`nuw nsw `, `exact `, fast-math flags, `volatile `); in front of a `tyval` slot or of a `ty` slot followed by `, `
   deriving DecidableEq
 
@@ -126,11 +131,15 @@ inductive Arg where
   | flags (xs : List Nat)      -- positions in the keyword list of the slot, in the order written
   | kw (i : Nat)               -- position in the keyword list of the slot
   | okw (i : Option Nat)
+  | loc (i : Ident)
+  | pad (p : Option Ident)
+  | labs (l : List Ident)
+  | unwind (u : Option Ident)
   deriving Inhabited
 
 /-- how the type of the result is obtained (asm newXxxInst: from the types WRITTEN in the defining instruction) -/
 inductive ResKind where
-  | none | first | cmp | loadTy | second | lastTy | elem | firstVec | shuffle | ptrOf | aggElem | gep | cmpxchg | pointee
+  | none | first | cmp | loadTy | second | lastTy | elem | firstVec | shuffle | ptrOf | aggElem | gep | cmpxchg | pointee | token
 
 structure Row where
   hasRes : Bool
@@ -266,7 +275,18 @@ def rows : List Row := [
   -- 88: fence (the ordering keyword carries its leading space); 89: cmpxchg; 90: atomicrmw
   ⟨false, [102, 101, 110, 99, 101], .void, [.kw kOrdSp], .none, false⟩,
   ⟨true, [99, 109, 112, 120, 99, 104, 103, 32], .void, [.flags kWeakVolatile, .tyval, .lit sComma, .tyval, .lit sComma, .tyval, .kw kOrdSp, .kw kOrdSp, .align], .cmpxchg, false⟩,
-  ⟨true, [97, 116, 111, 109, 105, 99, 114, 109, 119, 32], .void, [.flags kVolatile, .kw kRmwOps, .tyval, .lit sComma, .tyval, .kw kOrdSp, .align], .pointee, false⟩
+  ⟨true, [97, 116, 111, 109, 105, 99, 114, 109, 119, 32], .void, [.flags kVolatile, .kw kRmwOps, .tyval, .lit sComma, .tyval, .kw kOrdSp, .align], .pointee, false⟩,
+  -- 91: indirectbr T V, [label %a, label %b]
+  ⟨false, [105, 110, 100, 105, 114, 101, 99, 116, 98, 114, 32], .void, [.tyval, .lit [44, 32, 91], .labs, .lit [93]], .none, true⟩,
+  -- 92: catchswitch within P [label %h, …] unwind U (a terminator with a result of type token)
+  ⟨true, [99, 97, 116, 99, 104, 115, 119, 105, 116, 99, 104, 32, 119, 105, 116, 104, 105, 110, 32], .void,
+    [.pad, .lit [32, 91], .labs, .lit [93, 32, 117, 110, 119, 105, 110, 100, 32], .unwind], .token, true⟩,
+  -- 93: catchret from %pad to label %b; 94: cleanupret from %pad unwind U
+  ⟨false, [99, 97, 116, 99, 104, 114, 101, 116, 32, 102, 114, 111, 109, 32], .void, [.loc, .lit [32, 116, 111, 32, 108, 97, 98, 101, 108, 32], .lab], .none, true⟩,
+  ⟨false, [99, 108, 101, 97, 110, 117, 112, 114, 101, 116, 32, 102, 114, 111, 109, 32], .void, [.loc, .lit [32, 117, 110, 119, 105, 110, 100, 32], .unwind], .none, true⟩,
+  -- 95: catchpad within %cs [args]; 96: cleanuppad within P [args]
+  ⟨true, [99, 97, 116, 99, 104, 112, 97, 100, 32, 119, 105, 116, 104, 105, 110, 32], .void, [.loc, .lit [32], .eargs], .token, false⟩,
+  ⟨true, [99, 108, 101, 97, 110, 117, 112, 112, 97, 100, 32, 119, 105, 116, 104, 105, 110, 32], .void, [.pad, .lit [32], .eargs], .token, false⟩
 ]
 
 /-- the row of `switch` -/
@@ -303,6 +323,27 @@ def calleeTy : Ty := .ptr (.int 8) 0
 /-- `(T V, T V, …)`: the list `, T V…` without its first separator, in parentheses -/
 def cargsString (useHex : Int → Bool) (as : List (Ty × Operand)) : Bytes := [40] ++ (tyvalsString useHex as).drop 2 ++ [41]
 
+/-- `[T V, T V, …]`: the arguments of a catchpad / cleanuppad -/
+def eargsString (useHex : Int → Bool) (as : List (Ty × Operand)) : Bytes := [91] ++ (tyvalsString useHex as).drop 2 ++ [93]
+
+def sNone : Bytes := [110, 111, 110, 101]                                 -- "none"
+def sLabel : Bytes := [108, 97, 98, 101, 108, 32]                          -- "label "
+def sToCaller : Bytes := [116, 111, 32, 99, 97, 108, 108, 101, 114]      -- "to caller"
+
+def padString : Option Ident → Bytes
+  | none => sNone
+  | some i => identString i
+
+/-- `label %a, label %b` -/
+def labsString : List Ident → Bytes
+  | [] => []
+  | [i] => sLabel ++ identString i
+  | i :: j :: r => sLabel ++ identString i ++ sComma ++ labsString (j :: r)
+
+def unwindString : Option Ident → Bytes
+  | none => sToCaller
+  | some i => sLabel ++ identString i
+
 /-- the keywords at the given positions, each followed by a space -/
 def flagsString (ks : List Bytes) : List Nat → Bytes
   | [] => []
@@ -327,6 +368,11 @@ def printSlots (useHex : Int → Bool) : Ty → List Slot → List Arg → Bytes
   | cur, .kw ks :: fs, .kw i :: as => ks.getD i [] ++ printSlots useHex cur fs as
   | cur, .okw _ :: fs, .okw none :: as => printSlots useHex cur fs as
   | cur, .okw ks :: fs, .okw (some i) :: as => ks.getD i [] ++ printSlots useHex cur fs as
+  | cur, .loc :: fs, .loc i :: as => identString i ++ printSlots useHex cur fs as
+  | cur, .pad :: fs, .pad p :: as => padString p ++ printSlots useHex cur fs as
+  | cur, .labs :: fs, .labs l :: as => labsString l ++ printSlots useHex cur fs as
+  | cur, .unwind :: fs, .unwind u :: as => unwindString u ++ printSlots useHex cur fs as
+  | cur, .eargs :: fs, .tyvals ixs :: as => eargsString useHex ixs ++ printSlots useHex cur fs as
   | _, _, _ => []
 
 /-- `[ V, %b ]` groups separated by `, ` -/
@@ -402,6 +448,44 @@ def readCargs (s : Bytes) : Option (List (Ty × Operand)) :=
     else if r.getLast? == some 41 then readTyvals (r.length + 2) (sComma ++ r.dropLast)
     else none
   | _ => none
+
+/-- `[T V, T V, …]` up to the end of the line -/
+def readEargs (s : Bytes) : Option (List (Ty × Operand)) :=
+  match s with
+  | 91 :: r =>
+    if r == [93] then some []
+    else if r.getLast? == some 93 then readTyvals (r.length + 2) (sComma ++ r.dropLast)
+    else none
+  | _ => none
+
+/-- `none` or `%x` -/
+def readPad (s : Bytes) : Option (Option Ident × Bytes) :=
+  if s.head? == some 37 then
+    (match readIdent s with | some (i, r) => some (some i, r) | none => none)
+  else
+    (match TyParse.stripPrefix sNone s with | some r => some (none, r) | none => none)
+
+/-- `label %a, label %b` as long as the text goes on with `label ` -/
+def readLabs : Nat → Bytes → Option (List Ident × Bytes)
+  | 0, _ => none
+  | f + 1, s =>
+    match TyParse.stripPrefix sLabel s with
+    | none => some ([], s)
+    | some r =>
+      match readIdent r with
+      | some (i, 44 :: 32 :: r1) =>
+        (match TyParse.stripPrefix sLabel r1 with
+         | some _ => (match readLabs f r1 with | some (l, r2) => some (i :: l, r2) | none => none)
+         | none => none)
+      | some (i, r1) => some ([i], r1)
+      | none => none
+
+/-- `to caller` or `label %b` up to the end of the line -/
+def readUnwind (s : Bytes) : Option (Option Ident) :=
+  if s == sToCaller then some none
+  else match TyParse.stripPrefix sLabel s with
+    | some r => (match readIdent r with | some (i, []) => some (some i) | _ => none)
+    | none => none
 
 /-- the first keyword of the list that the text starts with (followed by a space) -/
 def findFlag : Nat → List Bytes → Bytes → Option (Nat × Bytes)
@@ -521,6 +605,41 @@ def readSlots : Ty → List Slot → Bytes → Option (List Arg × Bytes)
        (match readSlots cur fs s with
         | some (as, r') => some (.okw none :: as, r')
         | none => none))
+  | cur, .loc :: fs, s =>
+    (match readIdent s with
+     | some (i, r) =>
+       (match readSlots cur fs r with
+        | some (as, r') => some (.loc i :: as, r')
+        | none => none)
+     | none => none)
+  | cur, .pad :: fs, s =>
+    (match readPad s with
+     | some (p, r) =>
+       (match readSlots cur fs r with
+        | some (as, r') => some (.pad p :: as, r')
+        | none => none)
+     | none => none)
+  | cur, .labs :: fs, s =>
+    (match readLabs (s.length + 1) s with
+     | some (l, r) =>
+       (match readSlots cur fs r with
+        | some (as, r') => some (.labs l :: as, r')
+        | none => none)
+     | none => none)
+  | cur, .unwind :: fs, s =>
+    (match readUnwind s with
+     | some u =>
+       (match readSlots cur fs [] with
+        | some (as, r') => some (.unwind u :: as, r')
+        | none => none)
+     | none => none)
+  | cur, .eargs :: fs, s =>
+    (match readEargs s with
+     | some ixs =>
+       (match readSlots cur fs [] with
+        | some (as, r') => some (.tyvals ixs :: as, r')
+        | none => none)
+     | none => none)
   | cur, .align :: fs, s =>
     (match readAlign s with
      | some a =>
@@ -869,6 +988,10 @@ def argUses : Arg → List Ident
   | .flags _ => []
   | .kw _ => []
   | .okw _ => []
+  | .loc i => [i]
+  | .pad p => p.toList
+  | .labs l => l
+  | .unwind u => u.toList
 
 /-- the locals (values and blocks) an instruction refers to -/
 def extLabs : Ext → List Ident
@@ -983,6 +1106,7 @@ def defTy (i : Inst) : Option Ty :=
     | .cmpxchg => (thirdTyval i.args).map fun t => .struct false (.cons t (.cons (.int 1) .nil))
     -- newAtomicRMWInst: the pointee of the type written in front of the destination (the parser panics when that is not a pointer type)
     | .pointee => (match firstTyval i.args with | some (.ptr e _) => some e | _ => none)
+    | .token => some .token
 
 def env (f : Func) : List (Ident × Ty) :=
   f.params.map (fun p => (p.2, p.1)) ++
@@ -1073,6 +1197,8 @@ def blockDefs (f : Func) : List Ident := f.blocks.map (·.label)
 def argLabs : Arg → List Ident
   | .lab i => [i]
   | .phis incs => incs.map (·.2)
+  | .labs l => l
+  | .unwind u => u.toList
   | _ => []
 
 def instLabs (i : Inst) : List Ident := i.args.flatMap argLabs ++ extLabs i.ext
@@ -1140,6 +1266,23 @@ def callsOK (ge : GEnv) (f : Func) : Bool :=
       | _ => true
     else true
 
+/-- the row of the instruction that defines a local value -/
+def defRow (f : Func) (x : Ident) : Option Nat :=
+  (f.blocks.flatMap instsOf).findSome? fun i => if i.res == some x then some i.row else none
+
+def locOf (i : Inst) : Option Ident :=
+  i.args.findSome? fun a => match a with | .loc x => some x | _ => none
+
+/-- the rows whose bare local operand must be defined by an instruction of a particular row: catchret `from` a catchpad (95), cleanupret `from` a
+    cleanuppad (96), catchpad `within` a catchswitch (92) (asm/term.go irCatchRetTerm, irCleanupRetTerm; asm/inst_other.go irCatchPadInst) -/
+def padRows : List (Nat × Nat) := [(93, 95), (94, 96), (95, 92)]
+
+def padsOK (f : Func) : Bool :=
+  f.blocks.all fun b => (instsOf b).all fun i =>
+    match padRows.find? (·.1 == i.row), locOf i with
+    | some (_, want), some x => (match defRow f x with | some r => r == want | none => false)
+    | _, _ => true
+
 /-- the parser on a function definition (asm/local.go): scaffold and AssignIDs (nameless values are numbered, written IDs validated), duplicate
     definitions, undefined uses, label operands that are not blocks (asm/helper.go irBlock); then the operand types -/
 def translateIn (ge : GEnv) (f : Func) : Option Func :=
@@ -1149,7 +1292,7 @@ def translateIn (ge : GEnv) (f : Func) : Option Func :=
     let g := fill f l
     if hasDupI (defs g) then none
     else if (uses g).all (fun u => (defs g).contains u) && (labUses g).all (fun u => (blockDefs g).contains u) && typed g &&
-        (globUses g).all (fun n => (ge.map (·.1)).contains n) && callsOK ge g then some (retypeIn ge g) else none
+        (globUses g).all (fun n => (ge.map (·.1)).contains n) && callsOK ge g && padsOK g then some (retypeIn ge g) else none
 
 /-- the type of a reference to a function: pointer to its signature (ir/func.go Type) -/
 def funcRefTy (f : Func) : Ty := .ptr (.func f.ret (TyList.ofList (f.params.map (·.1))) false) 0
@@ -1191,6 +1334,10 @@ def argOKB : Arg → Bool
   | .flags _ => true
   | .kw _ => true
   | .okw _ => true
+  | .loc i => identOKB i
+  | .pad p => (match p with | some i => identOKB i | none => true)
+  | .labs l => l.all identOKB
+  | .unwind u => (match u with | some i => identOKB i | none => true)
 
 /-- the type after a flag list does not start with one of its keywords (no type does; decidable instance by instance) -/
 def flagTyOK (ks : List Bytes) (t : Ty) : Bool :=
@@ -1219,6 +1366,11 @@ def matchesB : List Slot → List Arg → Bool
   | .flags ks :: .kw ks2 :: fs, .flags xs :: .kw i :: as => xs.all (fun i => decide (i < ks.length)) && decide (i < ks2.length) && matchesB fs as
   | .kw ks :: fs, .kw i :: as => decide (i < ks.length) && matchesB fs as
   | .okw ks :: fs, .okw o :: as => (match o with | some i => decide (i < ks.length) | none => true) && matchesB fs as
+  | .loc :: fs, .loc _ :: as => matchesB fs as
+  | .pad :: fs, .pad _ :: as => matchesB fs as
+  | .labs :: fs, .labs _ :: as => matchesB fs as
+  | .unwind :: fs, .unwind _ :: as => matchesB fs as
+  | .eargs :: fs, .tyvals _ :: as => matchesB fs as
   | _, _ => false
 
 def sVoidSp : Bytes := [118, 111, 105, 100, 32]        -- "void "
@@ -1272,7 +1424,7 @@ def consistent (ge : GEnv) (f : Func) : Bool :=
     consistent with the definitions -/
 def wfSemIn (ge : GEnv) (f : Func) : Bool :=
   !hasDupI (defs f) && (uses f).all (fun u => (defs f).contains u) && (labUses f).all (fun u => (blockDefs f).contains u) &&
-    LLVMSpec.agreesFrom 0 (slotsOf f) && consistent ge f && typed f && (globUses f).all (fun n => (ge.map (·.1)).contains n) && callsOK ge f
+    LLVMSpec.agreesFrom 0 (slotsOf f) && consistent ge f && typed f && (globUses f).all (fun n => (ge.map (·.1)).contains n) && callsOK ge f && padsOK f
 
 def wfSem (f : Func) : Bool := wfSemIn (selfEnv f) f
 
